@@ -1,6 +1,8 @@
 import TempestVerif.Drv.Util
 import TempestVerif.Model.EM
 import TempestVerif.Model.HGMM
+import TempestVerif.Model.GMM
+import TempestVerif.Model.HFit
 /-
   line-protocol handlers of property C15.
   Matrices cross as rows separated by `;` (entries by `,`), stacks of matrices by `|`.
@@ -115,6 +117,119 @@ def argH (α : Type) [Sc α] [Codec α] (useMax : Bool) (args : List (String × 
   | some p => showList showLabel (if useMax then predict p else predictNearest p)
   | none => "bad-op"
 
+
+/-! ### whole `GaussianMixture` (clause audit)
+
+  gmm.fit.F   d= k= diag=0|1 x=<n×d> w=<n raw sample weights> tape=<rand() values> tiny= eps= reg= tol= maxit= ninit= [sing=<stack of matrices scipy refused, matched approximately>]
+        →  ok <weights> <means> <covFull> <covDiag> <n_iter> <converged 0|1> <lower_bound> <picks i.i;i.i>    |  raise
+  gmm.init.F  d= k= diag= x= s=<normalised weights> tape= tiny= eps=
+        →  ok <weights> <means> <covFull> <covDiag> <picks>   |  raise
+  gmm.eval.F  d= k= diag= x= s= pw=<weights> pm=<means> pcf=<covFull stack> pcd=<covDiag> eps= reg= sing=<stack of refused matrices>
+        →  <R n×K | raise> <lower bound> <predict labels> <bic>
+-/
+open Model.GMM in
+def matEq (a b : List (List Float)) : Bool :=
+  a.length == b.length && (List.zipWith (fun r1 r2 => r1.length == r2.length &&
+    (List.zipWith (fun (x y : Float) => x == y || (x != x && y != y)) r1 r2).all id) a b).all id
+
+def parseStack? {β : Type} (f : String → Option β) (s : String) : Option (List (List (List β))) :=
+  if s.isEmpty || s == "-" then some [] else (s.splitOn "|").mapM (parseMat? f)
+
+def showPicks (p : List (List Nat)) : String :=
+  if p.isEmpty then "-" else ";".intercalate (p.map fun l => if l.isEmpty then "-" else ".".intercalate (l.map toString))
+
+def showMStep (m : MStep Float) : String :=
+  s!"{showList showFloat m.weights} {showMat showFloat m.means} {showStack showFloat m.covFull} {showMat showFloat m.covDiag}"
+
+def natArg (args : List (String × String)) (k : String) : Option Nat := (getArg args k).bind String.toNat?
+def fArg (args : List (String × String)) (k : String) : Option Float := (getArg args k).bind parseFloat?
+def fList (args : List (String × String)) (k : String) : Option (List Float) := (getArg args k).bind (parseList? parseFloat?)
+def fMat (args : List (String × String)) (k : String) : Option (List (List Float)) := (getArg args k).bind (parseMat? parseFloat?)
+def fStack (args : List (String × String)) (k : String) : Option (List (List (List Float))) :=
+  (getArg args k).bind (parseStack? parseFloat?)
+
+def gmmCfg (args : List (String × String)) (sing : List (List Float) → Bool) : Option (Model.GMM.Cfg Float) :=
+  match natArg args "d", natArg args "k", natArg args "diag" with
+  | some d, some k, some dg =>
+    some { sing := sing, diagT := dg == 1, tiny := (fArg args "tiny").getD 0.0, eps := (fArg args "eps").getD 0.0,
+           reg := (fArg args "reg").getD 0.0, tol := (fArg args "tol").getD 0.0, d := d, K := k,
+           maxIter := (natArg args "maxit").getD 0, nInit := (natArg args "ninit").getD 0 }
+  | _, _, _ => none
+
+/-- approximate equality of matrices (relative 1e-6 per entry, NaN = NaN): used only to recognise, along a whole-fit
+    trajectory that differs from the real one by rounding, the matrices scipy refused in the real run -/
+def matApprox (a b : List (List Float)) : Bool :=
+  a.length == b.length && (List.zipWith (fun r1 r2 => r1.length == r2.length &&
+    (List.zipWith (fun (x y : Float) => x == y || (x != x && y != y) ||
+      Float.abs (x - y) ≤ 1e-6 * (Float.abs x + Float.abs y)) r1 r2).all id) a b).all id
+
+def gmmFitH (args : List (String × String)) : String :=
+  let flagged := ((getArg args "sing").bind (parseStack? parseFloat?)).getD []
+  match gmmCfg args (fun M => flagged.any (matApprox M)), fMat args "x", fList args "w", fList args "tape" with
+  | some c, some x, some w, some tape =>
+    match Model.GMM.fit c x w tape with
+    | none => "raise"
+    | some o => s!"ok {showMStep o.params} {o.nIter} {showBool o.converged} {showFloat o.lb} {showPicks o.picks}"
+  | _, _, _, _ => "bad-op"
+
+def gmmInitH (args : List (String × String)) : String :=
+  match gmmCfg args (fun _ => false), fMat args "x", fList args "s", fList args "tape" with
+  | some c, some x, some s, some tape =>
+    match Model.GMM.initFit c x s tape with
+    | none => "raise"
+    | some (p, picks, _) => s!"ok {showMStep p} {showPicks [picks]}"
+  | _, _, _, _ => "bad-op"
+
+def gmmEvalH (args : List (String × String)) : String :=
+  match fStack args "sing" with
+  | none => "bad-op"
+  | some flagged =>
+    match gmmCfg args (fun M => flagged.any (matEq M)), fMat args "x", fList args "s", fList args "pw", fMat args "pm",
+          fStack args "pcf", fMat args "pcd" with
+    | some c, some x, some s, some pw, some pm, some pcf, some pcd =>
+      let p : MStep Float := ⟨pw, pm, pcf, pcd⟩
+      let Cs := Model.GMM.covMats c.diagT p
+      let r := match Model.GMM.estep c.sing c.reg c.d pw pm Cs x with
+        | none => "raise"
+        | some R => showMat showFloat R
+      let lb := Model.GMM.lowerBound c.sing c.reg c.eps c.d pw pm Cs x s
+      let lab := Model.GMM.predict c p x
+      s!"{r} {showFloat lb} {showList showLabel lab} {showFloat (Model.GMM.bic c p x)}"
+    | _, _, _, _, _, _, _ => "bad-op"
+
+
+/-! ### whole `HierarchicalGaussianMixture` (clause audit)
+
+  hgmm.fit.F  d= diag= norm=0|1 x= w= tape= tiny= eps= reg= tol= gmaxit= ninit= maxit= minpts=<nat|none> mod= regp= epsd= q=<query points> [sing=<refused matrices, matched approximately>]
+        →  ok <K> <clusters> <labels> <centers K×d> <covs stack> <weights> <trace it:idx:m.m;…>
+              <predict(q)> <predict_proba(q)> <predict(q) with _gmm_ready=False> <predict_proba(q) with _gmm_ready=False>   |  raise
+-/
+def hgmmFitH (args : List (String × String)) : String :=
+  match natArg args "d", natArg args "diag", natArg args "norm", fMat args "x", fList args "w", fList args "tape",
+        fMat args "q" with
+  | some d, some dg, some nz, some x, some w, some tape, some q =>
+    let mp : Option Nat := (getArg args "minpts").bind String.toNat?
+    let flagged := ((getArg args "sing").bind (parseStack? parseFloat?)).getD []
+    let c : Model.HFit.HCfg Float :=
+      { sing := fun M => flagged.any (matApprox M), diagT := dg == 1, normalize := nz == 1, tiny := (fArg args "tiny").getD 0.0,
+        eps := (fArg args "eps").getD 0.0, reg := (fArg args "reg").getD 0.0, tol := (fArg args "tol").getD 0.0,
+        gmmMaxIter := (natArg args "gmaxit").getD 0, nInit := (natArg args "ninit").getD 0,
+        maxIterations := (natArg args "maxit").getD 0, minPoints := mp, modifier := (fArg args "mod").getD 0.0,
+        d := d, tape := tape, regP := (fArg args "regp").getD 0.0, epsD := (fArg args "epsd").getD 0.0 }
+    match Model.HFit.hfit c x w with
+    | none => "raise"
+    | some f =>
+      let xw := if c.normalize then x.map (Model.HFit.normRow c.eps f.dataMin f.dataMax) else x
+      let (_, tr) := traceLoop (Model.HFit.entryD c xw w) (Model.HFit.minPts c) c.maxIterations 0 [List.range x.length] []
+      let trS := if tr.isEmpty then "-" else
+        ";".intercalate (tr.map fun t => s!"{t.1}:{t.2.1}:{".".intercalate (t.2.2.map toString)}")
+      let p1 := Model.HFit.hpredict c f true q
+      let p0 := Model.HFit.hpredict c f false q
+      let pp1 := Model.HFit.hpredictProba c f true q
+      let pp0 := Model.HFit.hpredictProba c f false q
+      s!"ok {f.clusters.length} {showMat toString f.clusters} {showList showLabel f.labels} {showMat showFloat f.centers} {showStack showFloat f.covs} {showList showFloat f.weights} {trS} {showList showLabel p1} {showMat showFloat pp1} {showList showLabel p0} {showMat showFloat pp0}"
+  | _, _, _, _, _, _, _ => "bad-op"
+
 def handle (cmd : String) (args : List (String × String)) : Option String :=
   match cmd with
   | "mstep.F" => some (mstepH Float args)
@@ -128,6 +243,10 @@ def handle (cmd : String) (args : List (String × String)) : Option String :=
   | "argmin.F" => some (argH Float false args)
   | "argmax.Q" => some (argH Rat true args)
   | "argmin.Q" => some (argH Rat false args)
+  | "gmm.fit.F" => some (gmmFitH args)
+  | "gmm.init.F" => some (gmmInitH args)
+  | "gmm.eval.F" => some (gmmEvalH args)
+  | "hgmm.fit.F" => some (hgmmFitH args)
   | _ => none
 
 end Drv.C15
